@@ -7,6 +7,7 @@ LABELS = {11: 'node lies in the canonical interval', 12: 'basis function is one 
           23: 'node(kid) != node(point)', 24: 'level(parent) + 1 == level(point)', 25: 'the parent lists the point among its kids', 26: 'points without a parent have level 0',
           31: 'hierarchical basis: function of j vanishes at the node of i unless j is an ancestor-or-self of i', 41: 'getNumPoints(L) counts exactly the points of level <= L',
           51: 'evalSupport agrees with evalRaw', 52: 'basis vanishes farther from its node than getSupport()', 53: 'basis vanishes where evalSupport reports no support',
+          71: 'every level has at least one point', 72: 'the number of points grows strictly with the level', 73: 'n points interpolate degree n-1 exactly (getIExact == getNumPoints - 1; +2 for clenshaw-curtis-zero)', 74: 'getIExact - 1 <= getQExact <= 2 getNumPoints + 1',
           61: 'int2log2 is the largest power of two not exceeding the argument', 62: 'int3log3 is the smallest power of three above the argument', 63: 'intlog2 is the floor of the binary logarithm', 64: 'pow2/pow3 agree with repeated multiplication',
           99: 'reachability witness'}
 CFLAGS = '-std=c++14 -O1 -fno-vectorize -fno-slp-vectorize -fno-unroll-loops'
@@ -17,9 +18,9 @@ def incs():
 
 
 class KConfig:
-    def __init__(self, name, harness, defines, unwind=16, entry='harness_rule', timeout=600, modv=200):
+    def __init__(self, name, harness, defines, unwind=16, entry='harness_rule', timeout=600, modv=200, link_lib=False):
         self.name, self.harness, self.defines, self.unwind, self.entry, self.timeout, self.modv = name, harness, defines, unwind, entry, timeout, modv
-        self.args = [defines]; self.time_budget_s = timeout; self.max_paths = 1
+        self.args = [defines]; self.time_budget_s = timeout; self.max_paths = 1; self.link_lib = link_lib
 
 
 def sh(cmd, timeout=900):
@@ -47,7 +48,13 @@ def run_k(kc):
         if e: res['inconclusive'].append({'what': e}); res['wall'] = time.time() - t0; return res
     flags = '--unwind %d --unwinding-assertions --signed-overflow-check --undefined-shift-check --pointer-overflow-check --drop-unused-functions --no-malloc-may-fail' % kc.unwind
     # ---- translator validation: generated C (gcc) vs the real code (g++) on pseudo-random inputs
-    r1, _ = sh('gcc -O1 -w %s/h.c %s -o %s/gen -lm' % (d, nat, d)); r2, _ = sh('g++ -std=c++14 -O1 -w %s %s %s %s %s -x c %s -o %s/real -lm' % (incs(), kc.defines, src, natm, '', nat, d))
+    r1, _ = sh('gcc -O1 -w %s/h.c %s -o %s/gen -lm' % (d, nat, d))
+    if kc.link_lib:
+        libdir, _k = build.ensure_lib()
+        sh('clang-14 -O1 -w -c %s -o %s/native.o' % (nat, d))
+        r2, _ = sh('%s -fsanitize=address -std=c++14 -O1 -w %s %s %s %s %s/native.o %s/libplain.a -o %s/real -lm -lpthread' % (build.CLANGXX, incs(), kc.defines, src, natm, d, libdir, d))
+    else:
+        r2, _ = sh('g++ -std=c++14 -O1 -w %s %s %s %s %s -x c %s -o %s/real -lm' % (incs(), kc.defines, src, natm, '', nat, d))
     if r1.returncode or r2.returncode:
         res['inconclusive'].append({'what': 'native builds for translator validation failed', 'detail': (r1.stderr + r2.stderr)[-500:]})
     else:
@@ -76,10 +83,18 @@ def run_k(kc):
     if real_fails:
         # counterexample: first failing property with a trace, replayed on the g++ build of the real code
         r, dt = sh('cbmc %s/h.c %s %s --stop-on-fail --trace 2>&1' % (d, sup, flags), kc.timeout); res['stats']['queries'] += 1; res['stats']['solver_s'] += dt
-        vals = re.findall(r'return_value_nondet_int=(-?\d+)', r.stdout)
+        # nondet values: the generated C assigns `vK = nondet_int();`; the trace reports the assignment at that line
+        vals = []
+        csrc = open('%s/h.c' % d).read().split('\n')
+        for ln, line in enumerate(csrc, 1):
+            mm0 = re.match(r'\s*(v\d+) = nondet_int\(\);', line)
+            if not mm0: continue
+            mt = re.search(r'State \d+ file [^\n]*h\.c function \w+ line %d thread 0\n-+\n\s*%s=(-?\d+)' % (ln, mm0.group(1)), r.stdout)
+            if mt:
+                v = int(mt.group(1)); vals.append(str(v - (1 << 32) if v >= (1 << 31) else v))
         m = re.search(r'K(\d+)\n?.*?\n', r.stdout); failing = re.findall(r'Violated property:.*?\n.*?\n\s*(.*?)\n', r.stdout, re.S)
         kid = None
-        mm = re.search(r'Violated property:[\s\S]*?(K\d+|[a-z][^\n]*)\n', r.stdout)
+        mm = re.search(r'Violated property:\n\s*file[^\n]*\n\s*([^\n]+)\n', r.stdout)
         lab = mm.group(1) if mm else real_fails[0][1]
         rr, _ = sh('K_INPUTS="%s" %s/real' % (' '.join(vals), d), 20)
         confirmed = any(l.split()[1] == '0' for l in rr.stdout.split('\n') if len(l.split()) == 2)
